@@ -15,7 +15,7 @@
    witness (loop/../ln_out/secret read a file outside the root).  The repaired resolver (canonical_path)
    is what `resolve` models. *)
 From Coq Require Import ZArith List Bool.
-Require Import DS.Model.Path DS.Gen.GenPath DS.Proofs.PathProofs.
+Require Import DS.Model.Path DS.Gen.GenPath DS.Proofs.PathProofs DS.Proofs.KernelAgree.
 Import ListNotations.
 Open Scope Z_scope.
 
@@ -50,6 +50,35 @@ Theorem C17_reject_outside : forall (d : nat) (t : tree) (cwd : loc) (base p : p
   is_prefix rb full = false -> resolve d t cwd base p = Err Security.
 Proof. exact resolve_reject. Qed.
 Print Assumptions C17_reject_outside.
+
+(* The second sentence of the property, against the KERNEL rather than against realpath: whenever the
+   operating system itself can walk the joined string (every component exists, no ELOOP), the modelled
+   os.path.realpath returns exactly the kernel's location -- its lexical fallbacks (missing component,
+   give-up on a loop) are never taken.  Proof: the kernel's finite walk is a nested derivation, realpath
+   follows it, and a link being expanded cannot recur inside its own finite expansion. *)
+Theorem C17_realpath_agrees_with_kernel : forall (d : nat) (t : tree) (cwd : loc) (s : pstr) (kf : nat) (l : loc),
+  (count_links t <= d)%nat ->
+  kwalk kf t [] (tl (absolutize cwd s)) = Ok l -> realpath d t cwd s = Ok l.
+Proof. exact realpath_agrees_with_kernel. Qed.
+Print Assumptions C17_realpath_agrees_with_kernel.
+
+(* Hence: a string that the kernel resolves to a location outside the canonical root is rejected ... *)
+Theorem C17_kernel_outside_rejected : forall (d : nat) (t : tree) (cwd : loc) (base p : pstr) (kf : nat) (l rb : loc),
+  (count_links t <= d)%nat ->
+  kwalk kf t [] (tl (absolutize cwd (join_for_resolve base p))) = Ok l ->
+  realpath d t cwd base = Ok rb -> is_prefix rb l = false ->
+  resolve d t cwd base p = Err Security.
+Proof. exact kernel_outside_rejected. Qed.
+Print Assumptions C17_kernel_outside_rejected.
+
+(* ... and is never silently resolved to some other file: when the resolver answers, it answers the
+   kernel's own location. *)
+Theorem C17_resolve_is_kernel_location : forall (d : nat) (t : tree) (cwd : loc) (base p : pstr) (kf : nat) (l q : loc),
+  (count_links t <= d)%nat ->
+  kwalk kf t [] (tl (absolutize cwd (join_for_resolve base p))) = Ok l ->
+  resolve d t cwd base p = Ok q -> q = l.
+Proof. exact resolve_is_kernel_location. Qed.
+Print Assumptions C17_resolve_is_kernel_location.
 
 (* _get_arrow_path: table-relative / Iceberg-style strings go through the resolver; a true absolute
    string is admitted only when its own resolution is link-free and under the root. *)
